@@ -32,6 +32,17 @@ func Cfg(key, val string)
 func Param(name string, def int) int
 func Unix(sec int64, loc *time.Location) time.Time
 func Symbolic() bool
+
+// Sink is a hash.Hash that records the bytes it is fed.
+type Sink struct{ B []byte }
+
+func (s *Sink) Write(p []byte) (int, error)
+func (s *Sink) Sum(b []byte) []byte { return nil }
+func (s *Sink) Reset()              {}
+func (s *Sink) Size() int           { return 0 }
+func (s *Sink) BlockSize() int      { return 1 }
+func StreamEq(a, b *Sink) bool
+func MaybeNilIf[T any](isNil bool, p *T) *T { return p } // intercepted by the engine
 func Footprint(label string, f func())
 func ConflictFree(a, b string) bool
 func WritesNothingShared(a string) bool
